@@ -148,6 +148,38 @@ fn special_forms() -> Vec<String> {
         "{% set a %}{% for y in xs %}{% endfor %}{% endset %}{{ y }}",
         "{% for i in xs %}{% macro mm() %}{{ i }}{{ y }}{% endmacro %}{% else %}{{ mm }}{% endfor %}",
         "{% for i in xs %}{% else %}{% for i in xs %}{% else %}{{ i }}{% endfor %}{% endfor %}",
+        // macros that refer to themselves, to each other and to macros declared later
+        "{% macro rec(d) %}{% if d %}{{ rec(d - 1) }}{% endif %}x{% endmacro %}{{ rec(2) }}",
+        "{% macro ping(d) %}{% if d %}{{ pong(d - 1) }}{% endif %}{% endmacro %}{% macro pong(d) %}{% if d %}{{ ping(d - 1) }}{% endif %}{% endmacro %}{{ ping(3) }}",
+        "{% macro first() %}{{ later() }}{% endmacro %}{% macro later() %}{{ a }}{% endmacro %}{{ first() }}",
+        "{% for q in [1] %}{% macro rec(d) %}{% if d %}{{ rec(d - 1) }}{{ q }}{% endif %}{% endmacro %}{{ rec(1) }}{% endfor %}",
+        "{% macro rec(d) %}{% set again = rec %}{{ again(d - 1) if d }}{% endmacro %}{{ rec(1) }}",
+        "{% macro rec(f) %}{{ f(f) if x else '' }}{% endmacro %}{{ rec(rec) }}",
+        // the special names where they are ordinary lookups: `loop` in the iterable and the filter of a
+        // loop (its own loop object does not exist there), `self` and `super` when not called
+        "{% for i in loop %}{{ i }}{% endfor %}",
+        "{% for i in xs if loop %}{{ i }}{% endfor %}",
+        "{% for i in xs if loop.index %}{{ i }}{% endfor %}",
+        "{% for i in xs %}{% for j in [loop.index] if loop.first %}{{ j }}{% endfor %}{% endfor %}",
+        "{% for i in xs %}{% else %}{{ loop }}{% endfor %}",
+        "{% macro mm() %}{% for i in loop %}{{ i }}{% endfor %}{% endmacro %}{{ mm() }}",
+        "{% for i in xs %}{% macro mm() %}{% for j in loop %}{{ j }}{% endfor %}{% endmacro %}{{ mm() }}{% endfor %}",
+        "{{ self }}",
+        "{{ self.a }}",
+        "{{ self.a() }}{% block a %}{{ y }}{% endblock %}",
+        "{{ self.a(k) }}{% block a %}{% endblock %}",
+        "{{ self['a'] }}{% block a %}{% endblock %}",
+        "{% set s = self %}{{ s }}",
+        "{% block a %}{{ super }}{% endblock %}",
+        "{% block a %}{{ super.x }}{% endblock %}",
+        "{% block a %}{% if false %}{{ super() }}{% endif %}{{ a }}{% endblock %}",
+        "{% macro mm() %}{{ self }}{{ super }}{% endmacro %}{{ mm() }}",
+        "{% macro mm() %}{{ self.a() }}{% endmacro %}{% block a %}{{ y }}{% endblock %}{{ mm() }}",
+        "{% macro mm() %}{{ caller }}{{ caller() if caller is defined else a }}{% endmacro %}{{ mm() }}",
+        "{% call(q) foo() %}{{ caller }}{{ varargs }}{{ kwargs }}{% endcall %}",
+        "{{ loop(xs) }}",
+        "{{ loop.index }}{{ loop['index'] }}",
+        "{{ super() if false else a }}",
     ];
     let mut out: Vec<String> = v.iter().map(|s| s.to_string()).collect();
     // a name read in the header of a construct (evaluated in the enclosing scope) and bound at the top
@@ -229,8 +261,8 @@ fn special_forms() -> Vec<String> {
     out
 }
 
-/// names the engine reserves for itself; a template cannot sensibly receive them from the context
-/// and the engine probes some of them internally (`loop` when a loop starts, to find its parent)
+/// names the engine reserves for itself and probes internally (`loop` when a loop starts, to find its
+/// parent): a recorded lookup of one of these counts only if a value under that key changes the render
 const RESERVED: &[&str] = &["loop", "self", "super", "caller", "varargs", "kwargs"];
 const GLOBALS: &[&str] = &["range", "dict", "debug", "namespace", "probe"];
 
@@ -268,10 +300,34 @@ fn check_program(src: &str, name: &str, family: &str, acc: &Acc, l: &mut Local) 
         }
         union.extend(log.lock().unwrap().iter().cloned());
     }
+    // reserved names: the engine probes some of them for itself (every loop asks for `loop` to find a
+    // parent loop), so a recorded lookup alone does not say the template read the key.  It did if a
+    // value under that key changes what the render gives
+    let mut reserved_read: BTreeSet<String> = BTreeSet::new();
+    for key in union.iter().filter(|k| RESERVED.contains(&k.as_str())) {
+        if flat.contains(key) && nested_heads.contains(key) {
+            continue;
+        }
+        for present in &subsets {
+            let run = |with_key: bool| {
+                let mut m: BTreeMap<String, Value> = present.iter().map(|k| ((*k).clone(), values[*k].clone())).collect();
+                if with_key {
+                    m.insert(key.clone(), Value::from(vec![Value::from("RESERVED-MARK")]));
+                }
+                let rec = Recorder { present: m, log: Default::default() };
+                catch(|| tmpl.render(Value::from_object(rec)).map_err(|e| e.to_string()))
+            };
+            l.evals += 2;
+            if run(false) != run(true) {
+                reserved_read.insert(key.clone());
+                break;
+            }
+        }
+    }
     let mut missing_flat = vec![];
     let mut missing_nested = vec![];
     for key in &union {
-        if GLOBALS.contains(&key.as_str()) || RESERVED.contains(&key.as_str()) {
+        if GLOBALS.contains(&key.as_str()) || (RESERVED.contains(&key.as_str()) && !reserved_read.contains(key)) {
             continue;
         }
         if !flat.contains(key) {
@@ -343,6 +399,65 @@ pub fn main(args: Args) -> i32 {
         l.flush(&acc);
     }
     acc.count("special_forms", specials.len() as u64);
+    // the report of a loaded template does not depend on what happens to the environment afterwards:
+    // every special form is loaded under the default syntax and under a custom one, the environment is
+    // reconfigured (syntax, whitespace settings, undefined behaviour, globals, a second template), and the
+    // report of the template loaded earlier must stay what it was - and sound, which check_program
+    // decides for the same source
+    {
+        use minijinja::syntax::SyntaxConfig;
+        let custom = || SyntaxConfig::builder().block_delimiters("<%", "%>").variable_delimiters("<<", ">>").comment_delimiters("<#", "#>").build().unwrap();
+        let to_custom = |s: &str| s.replace("{%", "<%").replace("%}", "%>").replace("{{", "<<").replace("}}", ">>").replace("{#", "<#").replace("#}", "#>");
+        let reconfigs: Vec<(&str, Box<dyn Fn(&mut Environment<'static>) + Sync>)> = vec![
+            ("set_syntax_custom", Box::new(move |e| e.set_syntax(custom()))),
+            ("set_syntax_default", Box::new(|e| e.set_syntax(SyntaxConfig::default()))),
+            ("whitespace_settings", Box::new(|e| { e.set_trim_blocks(true); e.set_lstrip_blocks(true); e.set_keep_trailing_newline(true); })),
+            ("undefined_strict", Box::new(|e| e.set_undefined_behavior(minijinja::UndefinedBehavior::Strict))),
+            ("add_global_and_template", Box::new(|e| { e.add_global("a", 1); let _ = e.add_template("other", "{{ zz }}"); })),
+            ("clone_of_environment", Box::new(|e| { let c = e.clone(); *e = c; })),
+        ];
+        let reports = |e: &Environment<'static>| -> Option<(BTreeSet<String>, BTreeSet<String>)> {
+            let t = e.get_template("t").ok()?;
+            Some((t.undeclared_variables(false).into_iter().collect(), t.undeclared_variables(true).into_iter().collect()))
+        };
+        par_items(&specials, &acc, |i, src, l| {
+            for start_custom in [false, true] {
+                // (sources that spell a delimiter of the other syntax inside a string would change meaning)
+                if start_custom && (src.contains("<<") || src.contains("<%")) {
+                    continue;
+                }
+                let mut env = Environment::new();
+                if start_custom {
+                    env.set_syntax(custom());
+                }
+                if env.add_template_owned("t", if start_custom { to_custom(src) } else { src.clone() }).is_err() {
+                    l.outcome("does not compile");
+                    continue;
+                }
+                let before = reports(&env);
+                let fresh = {
+                    let e = Environment::new();
+                    e.template_from_str(src).ok().map(|t| (t.undeclared_variables(false).into_iter().collect::<BTreeSet<String>>(), t.undeclared_variables(true).into_iter().collect::<BTreeSet<String>>()))
+                };
+                for (rname, rc) in &reconfigs {
+                    let mut e2 = env.clone();
+                    rc(&mut e2);
+                    l.evals += 1;
+                    let after = reports(&e2);
+                    if after != before || before != fresh {
+                        acc.fail(Failure {
+                            key: format!("undeclared report_depends_on_environment_history reconfiguration={} loaded_under={}", rname, if start_custom { "custom_syntax" } else { "default_syntax" }),
+                            case: format!("special#{} :: {}", i, src),
+                            detail: format!("report when loaded {:?}; after {} {:?}; same source in a fresh default environment {:?}", before, rname, after, fresh),
+                            replay: json!({"source": src, "reconfiguration": rname, "start_custom": start_custom}),
+                        });
+                    } else {
+                        l.outcome("report unchanged by reconfiguration");
+                    }
+                }
+            }
+        });
+    }
     let opts = gen::Opts { depth: 2, max_programs: u64::MAX, multi_template: false, loop_controls: true };
     let size = gen::Gen::new(opts).size();
     let stride = args.tier.pick(5u64, 1u64);
@@ -376,10 +491,10 @@ pub fn main(args: Args) -> i32 {
             level: "exploration",
             tier: args.tier,
             seed: args.seed,
-            rule: format!("{} hand-enumerated assignment-bearing and expression forms (self-referential set, with, dotted set, unpacking, slices/subscripts, macro defaults/bodies/closures, call blocks with arguments, loops reading their own target, set-blocks, autoescape expressions, filter blocks, special names; 14 constructs reading a name in their header x 8 ways of binding the same name at the top of their body, with and without a read after the construct; every macro and call-block signature of up to 3 parameters whose defaults are absent, a literal, an outer name, an earlier or a later parameter, called with every number of arguments) plus every {} program of the depth-2 generator space{}; each rendered with a recording context object under all-keys, no-keys and every subset of up to 4 mentioned keys; every recorded key must be in undeclared_variables(false) (or a global) and be the head of a path of undeclared_variables(true). distinct non-trivial = distinct sources whose render looked up at least one key", specials.len(), if stride == 1 { "".to_string() } else { format!("{}th", stride) }, if args.tier == Tier::Thorough { " and every 23rd depth-3 program" } else { "" }),
+            rule: format!("{} hand-enumerated assignment-bearing and expression forms (self-referential set, with, dotted set, unpacking, slices/subscripts, macro defaults/bodies/closures, call blocks with arguments, loops reading their own target, set-blocks, autoescape expressions, filter blocks, special names; 14 constructs reading a name in their header x 8 ways of binding the same name at the top of their body, with and without a read after the construct; every macro and call-block signature of up to 3 parameters whose defaults are absent, a literal, an outer name, an earlier or a later parameter, called with every number of arguments) plus every {} program of the depth-2 generator space{}; each rendered with a recording context object under all-keys, no-keys and every subset of up to 4 mentioned keys; every recorded key must be in undeclared_variables(false) (or a global) and be the head of a path of undeclared_variables(true); every special form is also loaded into an environment under the default and under a custom syntax, the environment is then reconfigured in 6 ways (syntax changed either way, whitespace settings, undefined behaviour, a global and a further template, cloned) and the report of the template loaded earlier must stay what it was and equal the one of a fresh environment. distinct non-trivial = distinct sources whose render looked up at least one key", specials.len(), if stride == 1 { "".to_string() } else { format!("{}th", stride) }, if args.tier == Tier::Thorough { " and every 23rd depth-3 program" } else { "" }),
             exhaustive: true,
             bound: json!({"context_key_pool": pool_values().keys().collect::<Vec<_>>()}),
-            assumptions: vec!["debug info is switched off (a failing render otherwise re-reads every mentioned name for its error report)".into(), "the reserved names loop/self/super/caller/varargs/kwargs are not judged".into(), "single-file templates only (include/import/extends are documented as out of scope of the analysis)".into()],
+            assumptions: vec!["debug info is switched off (a failing render otherwise re-reads every mentioned name for its error report)".into(), "a lookup of the reserved names loop/self/super/caller/varargs/kwargs counts when a value under that key changes the result of the render (the engine also probes them for itself)".into(), "single-file templates only (include/import/extends are documented as out of scope of the analysis)".into()],
             extra: Default::default(),
             start: start_t,
         },
